@@ -65,6 +65,17 @@ ParsedRep(i, opt) == CASE ShapeKind(i) = "pt" -> IF opt[1] THEN "SimplePoint" EL
 \* the representation a leaf has as a position of a Multi* object
 MultiRep(i) == CASE ShapeKind(i) = "pt" -> "Point" [] ShapeKind(i) = "line" -> "LineString" [] OTHER -> "Polygon"
 
+\* a catalogue of collections with more children than the default child-index threshold (64): the child R-tree exists
+\* only from that size on.  They count as ONE part for the bounds, so they can be wrapped, collected and reloaded too.
+PtLeaves == SelectSeq([i \in 1..NLf |-> i], LAMBDA i : ShapeKind(i) = "pt")
+BigCat == <<
+   <<"coll", "GeometryCollection", [j \in 1..70 |-> Lr(((j * 5) % NLf) + 1, CtorRep(((j * 5) % NLf) + 1))]>>,
+   <<"coll", "FeatureCollection", [j \in 1..66 |-> IF j % 9 = 0 THEN <<"feat", <<"emp", "LineString0">>>>
+                                                     ELSE <<"feat", Lr(((j * 7) % NLf) + 1, CtorRep(((j * 7) % NLf) + 1))>>]>>,
+   <<"coll", "MultiPoint", [j \in 1..65 |-> Lr(PtLeaves[(j % 3) + 1], "Point")]>>,
+   <<"coll", "GeometryCollection", [j \in 1..64 |-> Lr(((j * 3) % NLf) + 1, CtorRep(((j * 3) % NLf) + 1))]>>,
+   <<"coll", "FeatureCollection", [j \in 1..63 |-> Lr(((j * 11) % NLf) + 1, CtorRep(((j * 11) % NLf) + 1))]>> >>
+IsBig(t) == OTag(t) = "coll" /\ Len(t[3]) > 8
 RECURSIVE HasEmp(_), Reparsed(_,_), NLeaves(_), Nest(_), MultiKids(_)
 HasEmp(t) == CASE OTag(t) = "leaf" -> FALSE
                [] OTag(t) = "emp" -> TRUE
@@ -77,11 +88,11 @@ Reparsed(t, opt) == CASE OTag(t) = "leaf" -> Lr(t[2], ParsedRep(t[2], opt))
                       [] OTag(t) = "feat" -> <<"feat", Reparsed(t[2], opt)>>
                       [] OTag(t) = "coll" -> IF IsMulti(t[2]) THEN <<"coll", t[2], MultiKids(t[3])>>
                                              ELSE <<"coll", t[2], [i \in 1..Len(t[3]) |-> Reparsed(t[3][i], opt)]>>
-NLeaves(t) == CASE OTag(t) \in {"leaf", "emp"} -> 1
+NLeaves(t) == CASE OTag(t) \in {"leaf", "emp"} \/ IsBig(t) -> 1
                 [] OTag(t) = "feat" -> NLeaves(t[2])
                 [] OTag(t) = "coll" -> LET RECURSIVE S(_) S(i) == IF i > Len(t[3]) THEN 0 ELSE NLeaves(t[3][i]) + S(i+1) IN S(1)
 Max2(a, b) == IF a > b THEN a ELSE b
-Nest(t) == CASE OTag(t) \in {"leaf", "emp"} -> 0
+Nest(t) == CASE OTag(t) \in {"leaf", "emp"} \/ IsBig(t) -> 0
              [] OTag(t) = "feat" -> 1 + Nest(t[2])
              [] OTag(t) = "coll" -> LET RECURSIVE M(_) M(i) == IF i > Len(t[3]) THEN 0 ELSE Max2(Nest(t[3][i]), M(i+1)) IN 1 + M(1)
 Fits(t) == NLeaves(t) <= MaxParts /\ Nest(t) <= MaxNest
@@ -115,7 +126,7 @@ Used == {k \in Keys : store[k] # None}
 B2I(x) == IF x THEN 1 ELSE 0
 Code(a, b, strip) == B2I(Inter(a, b, strip)) + 2 * B2I(Cont(a, b, strip)) + 4 * B2I(Cont(b, a, strip))
 Queries == << <<0,0,3,3>>, <<0,0,0,0>>, <<1,1,2,2>>, <<3,0,3,3>>, <<-5,-5,-4,-4>>, <<2,2,2,2>>, <<0,3,3,3>> >>
-SetSeq(S) == SelectSeq([i \in 1..16 |-> i], LAMBDA i : i \in S)
+SetSeq(S) == SelectSeq([i \in 1..80 |-> i], LAMBDA i : i \in S)
 
 Put(k, t, how, act) == /\ Fits(t)
                        /\ store' = [store EXCEPT ![k] = t]
@@ -123,6 +134,7 @@ Put(k, t, how, act) == /\ Fits(t)
                        /\ last' = act
                        /\ n' = n + 1
 SetLeaf(k, i) == Put(k, Lr(i, CtorRep(i)), "ctor", <<"SetLeaf", k, i>>)
+SetBig(k, b) == Put(k, BigCat[b], "ctor", <<"SetBig", k, b>>)      \* (generator and trace specification only: not part of Next)
 SetEmpty(k, e) == Put(k, <<"emp", e>>, "ctor", <<"SetEmpty", k, e>>)
 Wrap(k, j, mem) == store[j] # None /\ Put(k, <<"feat", store[j]>>, "ctor", <<"Wrap", k, j, mem>>)
 \* a collection over the objects at keys js (a sequence, repetitions allowed: the same pointer twice)
@@ -205,6 +217,7 @@ Pick(S) == {RandomElement({x \in S : n >= 0})}      \* (mentions a variable: a c
 CollKinds == {"MultiPoint", "MultiLineString", "MultiPolygon", "GeometryCollection", "FeatureCollection"}
 GenMutate == \/ \E k \in Keys, i \in Pick(LeafSet) : SetLeaf(k, i)
              \/ \E k \in Pick(Keys), e \in Pick(EmptyKinds) : SetEmpty(k, e)
+             \/ \E k \in Pick(Keys), b \in Pick(1..Len(BigCat)), dice \in Pick(1..5) : dice = 1 /\ SetBig(k, b)    \* (one step in about forty: they are costly to evaluate)
              \/ \E k \in Keys, j \in Used, m \in Pick(Members) : Wrap(k, j, m)
              \/ \E k \in Pick(Keys), kind \in CollKinds, js \in Seqs(Used, 0, 2) : Collect(k, kind, js)
              \/ Used # {} /\ \E k \in Pick(Keys), kind \in CollKinds, js \in Pick([1..3 -> Used]) : Collect(k, kind, js)
